@@ -110,8 +110,15 @@ ObjObs(o) == IF ~o.live THEN [live |-> FALSE]
                    parts |-> IF o.fit # <<>> THEN PartsObs(o.fit) ELSE <<>>]
 ShapeClash(p, q) == /\ p.fit # <<>> /\ q.fit # <<>> /\ ConfigKeys(p.stored) = ConfigKeys(q.stored)
                     /\ Len(p.fit.keep) # Len(q.fit.keep)
+(* NOT a gate but a limit of this specification: two fitted objects that report the same configuration while their
+   (stale) parts come from different builders.  Deciding == would mean comparing a symmetrised count matrix (kept as
+   twice its value) and the stationary vector of a row-normalised chain (no closed form here, see Spectrum.tla) by
+   VALUE; the comparison is left unobserved in such states. *)
+MethodClash(p, q) == /\ p.fit # <<>> /\ q.fit # <<>> /\ ConfigKeys(p.stored) = ConfigKeys(q.stored)
+                     /\ p.fitcfg.method # q.fitcfg.method
 EqDefined(ob) == /\ ob.a.live /\ ob.b.live /\ (UnfitObservers \/ (ob.a.fit # <<>> /\ ob.b.fit # <<>>))
                  /\ (EqShapeClash \/ ~ShapeClash(ob.a, ob.b))
+                 /\ ~MethodClash(ob.a, ob.b)
 Obs(ob, dk, rs) ==
   [a |-> ObjObs(ob.a), b |-> ObjObs(ob.b),
    eqdef |-> EqDefined(ob), eq |-> (EqDefined(ob) /\ EqSpec(ob.a, ob.b)),
@@ -198,6 +205,7 @@ Eq(x, y) ==                                       \* x == y
   /\ CanStep /\ obj[x].live /\ obj[y].live
   /\ (obj[x].fit = <<>> \/ obj[y].fit = <<>>) => UnfitObservers
   /\ ShapeClash(obj[x], obj[y]) => EqShapeClash
+  /\ ~MethodClash(obj[x], obj[y])
   /\ res' = BoolRes(EqSpec(obj[x], obj[y]))
   /\ UNCHANGED <<trajs, obj, disk>>
   /\ Log([op |-> "eq", x |-> x, y |-> y])
